@@ -310,24 +310,38 @@ Definition crash_possible (tmp state : fname) (sk : list sstep) (bs : list bytes
 (* the crash points at which the temporary file can have length [len] (None: no such file), found from the
    lengths of the writes alone; a sublist of crash_points_from (AutoSave_proofs.crash_candidates_sound), so that
    crash_possible_fast implies crash_possible.  Used by the runner for large states. *)
-Fixpoint crash_candidates (acts : list step) (k acc : nat) (len : option nat) : list (nat * nat) :=
+Fixpoint write_candidates (acts : list step) (k acc : nat) (len : option nat) : list (nat * nat) :=
   match acts with
-  | [] => [(k, 0)]
+  | [] => []
   | a :: rest =>
       match a with
       | StWrite b =>
           (match len with
            | Some l => if Nat.leb acc l && Nat.leb l (acc + List.length b) then [(k, l - acc)] else []
            | None => [(k, 0)]
-           end) ++ crash_candidates rest (S k) (acc + List.length b) len
-      | _ => (k, 0) :: crash_candidates rest (S k) acc len
+           end) ++ write_candidates rest (S k) (acc + List.length b) len
+      | _ => write_candidates rest (S k) acc len
       end
   end.
+
+Fixpoint nonwrite_candidates (acts : list step) (k : nat) : list (nat * nat) :=
+  match acts with
+  | [] => [(k, 0)]
+  | a :: rest =>
+      match a with
+      | StWrite _ => nonwrite_candidates rest (S k)
+      | _ => (k, 0) :: nonwrite_candidates rest (S k)
+      end
+  end.
+
+(* the few points outside writes first (existsb stops at the first match) *)
+Definition crash_candidates (acts : list step) (len : option nat) : list (nat * nat) :=
+  nonwrite_candidates acts 0 ++ write_candidates acts 0 0 len.
 
 Definition crash_possible_fast (tmp state : fname) (sk : list sstep) (bs : list bytes) (fs0 : fs) (o : obs) : bool :=
   let acts := fst (autosave_actions tmp sk bs NoFault fs0) in
   existsb (fun kt => obs_eqb o (observe tmp state (s_fs (run_steps torn_step tmp acts (init fs0) (fst kt) (snd kt)))))
-          (crash_candidates acts 0 0 (option_map (@List.length N) (snd o))).
+          (crash_candidates acts (option_map (@List.length N) (snd o))).
 
 (* every fault position of a program: step index and, for writes, every partial length *)
 Fixpoint fault_points_from (p : list pstep) (i : nat) : list fault :=
